@@ -685,3 +685,16 @@ package stun
 //@   ensures result == nil && len(a.IP) == 16 && !old(isIPv4spec(a.IP)) ==> AppendedHdr(msg, attrType, 20) && AddrHdr(msg, 2, uint16(a.Port)) && forall(j, 0, 16, NewValue(msg, 4+j) == old(a.IP[j]))
 
 //@ define isIPv4spec(ip) = forall(j, 0, 10, ip[j] == 0) && ip[10] == 255 && ip[11] == 255
+
+//@ func XORMappedAddress.AddToAs
+//@   safety C09 C06
+//@   props C09 C06 C03
+//@   requires msg != nil && len(msg.Raw) >= 20 + msg.Length && Fits(msg, 20) && region(a.IP) != region(msg.Raw)
+//@   requires 0 <= a.Port && a.Port <= 65535
+//@   assigns msg.Raw, msg.Length, msg.Attributes, mem(msg.Raw), mem(msg.Attributes)
+//@   allocates
+//@   ensures result == nil <==> (len(a.IP) == 4 || len(a.IP) == 16)
+//@   ensures result != nil ==> Unchanged(msg)
+//@   ensures result == nil && len(a.IP) == 4 ==> AppendedHdr(msg, attr, 8) && AddrHdr(msg, 1, xor16(a.Port, 0x2112)) && forall(j, 0, 4, NewValue(msg, 4+j) == xor8(old(a.IP[j]), cookie_tid(msg, j)))
+//@   ensures result == nil && len(a.IP) == 16 && old(isIPv4spec(a.IP)) ==> AppendedHdr(msg, attr, 8) && AddrHdr(msg, 1, xor16(a.Port, 0x2112)) && forall(j, 0, 4, NewValue(msg, 4+j) == xor8(old(a.IP[12+j]), cookie_tid(msg, j)))
+//@   ensures result == nil && len(a.IP) == 16 && !old(isIPv4spec(a.IP)) ==> AppendedHdr(msg, attr, 20) && AddrHdr(msg, 2, xor16(a.Port, 0x2112)) && forall(j, 0, 16, NewValue(msg, 4+j) == xor8(old(a.IP[j]), cookie_tid(msg, j)))
